@@ -198,8 +198,17 @@ func (o *apiObjs) tenvArg(idx int) (arg interface{}, un bool) {
 		// a hand-written type environment: structurally identical composite types are one *Type
 		t := types.NewEnv()
 		tb := &typeBuilder{share: true}
-		for _, b := range arr(e["binds"]) {
-			t.Put(str(obj(b)["n"]), tb.build(typeOfValJ(obj(obj(b)["v"]))))
+		for i, b := range arr(e["binds"]) {
+			ty := tb.build(typeOfValJ(obj(obj(b)["v"])))
+			if i%2 == 0 {
+				// every other name is bound twice: first to another type, then to its own (the last binding counts)
+				decoy := types.Bool
+				if ty.Kind == types.KBool {
+					decoy = types.Num
+				}
+				t.Put(str(obj(b)["n"]), decoy)
+			}
+			t.Put(str(obj(b)["n"]), ty)
 		}
 		o.traw[idx] = t
 		return t, false
@@ -223,7 +232,10 @@ func (o *apiObjs) venvArg(idx int) (arg interface{}, un bool) {
 			return v, false
 		}
 		v := val.NewEnv()
-		for _, b := range arr(e["binds"]) {
+		for i, b := range arr(e["binds"]) {
+			if i%2 == 1 {
+				v.Put(str(obj(b)["n"]), val.Str("rebound"))
+			}
 			v.Put(str(obj(b)["n"]), valFromJ(obj(obj(b)["v"])))
 		}
 		o.vraw[idx] = v
